@@ -1,5 +1,5 @@
 -- GENERATED from /repo by harness/vh (translator); do not edit.
-import Iodata.Model.Conv
+import Iodata.Model.WfRead
 namespace Iodata.Gen.Wf
 /-- wfn.py: `get_mocoeff_scales` is called on a basis carrying the source conventions -/
 def wfnScalesFromSource : Bool := false
@@ -13,4 +13,7 @@ def mklBetaIrrepsUseNorbb : Bool := false
 def mklSeparatorsPerCentre : Bool := true
 /-- fchk.py: density matrices converted to the FCHK conventions -/
 def fchkDensitiesConverted : Bool := true
+open Iodata.Wf in
+/-- molden.py: header tags per combination of d/f/g/h kinds -/
+def moldenHeader : Iodata.Wf.HdrTable := []
 end Iodata.Gen.Wf
